@@ -73,12 +73,16 @@ def near_twin(rng, nz, cname):
     return nz
 
 
-def build(code_spec, noise_spec, dec_spec, rate):
+def build(code_spec, noise_spec, dec_spec, rate, dec_rate=None):
+    """`dec_rate`: the rate the decoder was constructed for, when it is not
+    the rate of the simulation (a decoder calibrated once and used over a
+    scan of physical rates)."""
     from panqec.config import CODES as C, DECODERS as D
     from panqec.error_models import PauliErrorModel
     code = C[code_spec[0]](*code_spec[1])
     noise = PauliErrorModel(**noise_spec)
-    dec = D[dec_spec['name']](code, noise, rate,
+    dec = D[dec_spec['name']](code, noise,
+                              rate if dec_rate is None else dec_rate,
                               **dec_spec.get('parameters', {}))
     return code, noise, dec
 
@@ -133,8 +137,13 @@ def gen_history(seed):
         if dname == 'MatchingDecoder' and rng.random() < 0.3:
             # a partial decoder: does not always return to the codespace
             dec['parameters'] = {'error_type': rng.choice(['X', 'Z'])}
+        rate = rng.choice(RATES)
         sims.append({'code': ci, 'noise': ni, 'decoder': dec,
-                     'rate': rng.choice(RATES),
+                     'rate': rate,
+                     # a decoder constructed for another physical rate than
+                     # the one the simulation samples at
+                     'dec_rate': (rng.choice([r for r in RATES if r != rate])
+                                  if rng.random() < 0.25 else None),
                      'rng_seed': (rng.randrange(1 << 32)
                                   if rng.random() < 0.75 else None)})
     ops = []
@@ -265,8 +274,10 @@ class HistoryExec:
         for sp in plan['sims']:
             code, noise = codes[sp['code']], noises[sp['noise']]
             dec = D[sp['decoder']['name']](
-                code, noise, sp['rate'],
+                code, noise, sp.get('dec_rate') or sp['rate'],
                 **sp['decoder'].get('parameters', {}))
+            if sp.get('dec_rate'):
+                self.sim.probe('decoder_built_for_another_rate')
             rng = None
             if sp['rng_seed'] is not None:
                 rng = np.random.default_rng(sp['rng_seed'])
@@ -401,7 +412,8 @@ class HistoryExec:
         if len(c) > 2:
             code.deform(c[2])
         noise = PauliErrorModel(**self.plan['noises'][sp['noise']])
-        dec = D[sp['decoder']['name']](code, noise, sp['rate'],
+        dec = D[sp['decoder']['name']](code, noise,
+                                       sp.get('dec_rate') or sp['rate'],
                                        **sp['decoder'].get('parameters', {}))
         rng = None
         if op.get('new_seed') is not None:
@@ -602,7 +614,10 @@ def calibration(plan):
     try:
         seams.clear_caches()
         code, noise, dec = build(plan['code'], plan['noise'],
-                                 plan['decoder'], plan['rate'])
+                                 plan['decoder'], plan['rate'],
+                                 plan.get('dec_rate'))
+        if plan.get('dec_rate'):
+            sim.probe('decoder_built_for_another_rate')
         p = plan['rate']
         n = code.n
         rc = refmodel.RefCode(code)
@@ -647,9 +662,24 @@ def calibration(plan):
             if violations:
                 break
         info['pieces'] = len(pieces)
-        # enumerate all 4^n errors through the real run_once
+        # enumerate all 4^n errors through the real DirectSimulation.run(1)
+        # (a tap on run_once hands over the error and correction of the
+        # trial, the verdict is the one the simulation recorded)
         if not violations:
             import panqec.simulation._direct_simulation as ds
+            from panqec.simulation import DirectSimulation
+            master = Scripted([0.0])
+            dsim = DirectSimulation(code, noise, dec, p, rng=master,
+                                    verbose=False)
+            tapped = {}
+            real_once = ds.run_once
+
+            def tap(*a, **kw):
+                shot_ = real_once(*a, **kw)
+                tapped['shot'] = shot_
+                return shot_
+            ds.run_once = tap
+            undo_tap = seams.patch_everywhere(real_once, tap)
             total_w = 0.0
             est = 0.0      # sum_e w(e) [reported failure]
             exact = 0.0    # sum_e P(e) [e + correction not in S]
@@ -676,8 +706,21 @@ def calibration(plan):
                     # the sampler can never produce an error the channel
                     # gives weight to: already reported above
                     continue
-                sc = Scripted(us)
-                shot = ds.run_once(code, noise, dec, p, rng=sc)
+                sc = master
+                sc.values, sc.i = us, 0
+                tapped.clear()
+                dsim.run(1)
+                if 'shot' not in tapped:
+                    raise HarnessError('DirectSimulation.run(1) did not go '
+                                       'through run_once')
+                shot = dict(tapped['shot'])
+                r_ = dsim.results
+                if r_['n_runs'] != n_eval + 1 \
+                        or len(r_['success']) != n_eval + 1:
+                    violate('accounting_mismatch', {
+                        'n_runs': r_['n_runs'], 'trials': n_eval + 1})
+                    break
+                shot['success'] = r_['success'][-1]
                 n_eval += 1
                 e = refmodel.op_from_string(s)
                 got_e = refmodel.op_from_bsf(
@@ -698,6 +741,8 @@ def calibration(plan):
                 total_w += w
                 est += w * rep_fail
                 exact += P * true_fail
+            ds.run_once = real_once
+            seams.unpatch(undo_tap, real_once)
             if not violations:
                 if abs(total_w - 1.0) > 1e-9:
                     violate('sampler_measure_not_one', {'total': total_w})
@@ -747,7 +792,7 @@ def calibration(plan):
         'violations': violations,
         'fingerprint': sim.log.fingerprint(),
         'states': [digest([plan['code'], plan['noise'], plan['decoder'],
-                           plan['rate']])],
+                           plan['rate'], plan.get('dec_rate')])],
         'fault_counts': {},
         'probes': dict(sim.probes, calibration_errors_enumerated=n_eval,
                        calibration_config=1),
@@ -978,6 +1023,8 @@ def calibration_plans(tier, seed):
         plans.append({'property': PROP, 'kind': 'calibration',
                       'seed': H(seed, 'cal', len(plans)), 'code': list(code),
                       'noise': dict(nz), 'decoder': dec, 'rate': rate,
+                      'dec_rate': (rng.choice([r for r in RATES if r != rate])
+                                   if len(plans) % 3 == 1 else None),
                       'mc_trials': mc})
 
     for code in small:
@@ -1170,7 +1217,10 @@ def evidence(tier, agg, wall):
             'int-bitmask GF(2) reference at the run_once seam and every '
             'seeded simulation compared with a fresh twin run alone; or one '
             'exact calibration (u -> Pauli map by bisection, then all 4^n '
-            'errors scripted through the real run_once).  '
+            'errors scripted one by one through run(1) of one real '
+            'DirectSimulation whose rng= is the scripted generator; in a '
+            'third of the configurations the decoder was constructed for '
+            'another physical rate than the simulation samples at).  '
             'distinct_nontrivial = distinct (number of simulations, sorted '
             'trial totals, seeded/unseeded mix, number of run calls) history '
             'shapes plus distinct calibration configurations'),
